@@ -3,10 +3,10 @@
    [wf]    what any PHP front end checks before running: every break/continue level names an
            enclosing loop or switch of the same function, a switch has at most one default.
    [clean] the complement of the recorded defect classes of the implementation.  After the repairs
-           of switch fall-through (/repo 8109483) and of static in the main script (d3ebf7f) one class
-           is left, a whole-program condition: a closure whose body can run off its end (it yields
-           its last statement's value: known finding closure:falloff-value).  [clean_stmt] is kept as the
-           per-statement hook and is true of every statement.
+           of switch fall-through (/repo 8109483), of static in the main script (d3ebf7f) and of the
+           closure that runs off its end (1b0c649) NO class is left: [clean_stmt] and [clean] are kept
+           as the hook where a future defect class would be excluded, and are true of every program
+           (Proofs.clean_all); the theorems in Properties.v are also stated without them.
    No proofs in this file. *)
 From Coq Require Import List String ZArith Bool Arith.
 From V.C02 Require Import Lang Spec.
@@ -84,9 +84,8 @@ Definition is_main (fn : string) : bool := String.eqb fn "".
 Definition wf_body (s : stmt) : bool := scoped 0 s && one_default s.
 Definition wf (p : prog) : bool :=
   wf_body (main p) && forallb (fun d => wf_body (fbody d)) (funcs p) && forallb (fun c => wf_body (cbody c)) (closures p).
-(* a closure body that can run off its end yields the value of its last statement in the
-   implementation (LambdaExpression.Call; arrow functions rely on it) — known finding
-   closure:falloff-value; statement values are not modelled, so such closures are outside [clean] *)
+(* a closure body that runs off its end yields null since /repo 1b0c649, as the model always had it:
+   closures are no longer restricted to those that end in a return *)
 Definition clean (p : prog) : bool :=
   clean_stmt true (main p) && forallb (fun d => clean_stmt (is_main (fname d)) (fbody d)) (funcs p) &&
-  forallb (fun c => clean_stmt false (cbody c) && ends_return (cbody c)) (closures p).
+  forallb (fun c => clean_stmt false (cbody c)) (closures p).
